@@ -2,7 +2,7 @@
    Statements about Model/Series.v (hand transliteration of the food_system supply classes, tied to /repo by the
    correspondence check of harness/props/c08.py); proofs in Proofs/Series.v.
    Supported horizons: multiples of 12 from 24 to 120 months. *)
-From Coq Require Import QArith List Bool Arith Lia.
+From Coq Require Import QArith List Bool Arith Lia String.
 From Allfed Require Import Base.QSeries Model.Series Proofs.Series.
 Import ListNotations.
 Open Scope Q_scope.
@@ -36,15 +36,57 @@ Print Assumptions c08_lengths.
 Theorem c08_outdoor_closed_form : forall c m,
   List.length (cseas c) = 12%nat -> List.length (crs c) = 9%nat -> cstart c = 5%nat ->
   (m < cN c)%nat -> (cN c <= 120)%nat ->
+  let hbm := match chbm c with Some v => v | None => qsum (firstn 4 (cseas c)) end in   (* harvested before May *)
+  let year1 :=            (* May-December of year 1 *)
+    if Qle_bool (cr1 c) hbm then 0
+    else if Qlt_bool (1 - hbm) (1 # 4) then 1
+    else (cr1 c - hbm) / (1 - hbm) in
   nthq (norel_grown c) m ==
   cbase c * (1 - seed_percent / 100) * nthq (cseas c) ((m + 4) mod 12) * 4000000 / 1000000000
-  * clamp0 (nthq (year1_ratio (cr1 c) (cseas c) (chbm c) :: crs c)
-                 (if (m <? 8)%nat then 0 else if (m <? 104)%nat then S ((m - 8) / 12) else 9)%nat).
+  * clamp0 (if (m <? 8)%nat then year1
+            else nthq (crs c) ((if (m <? 104)%nat then S ((m - 8) / 12) else 9) - 1)%nat).
 Proof.
-  intros c m Hl Hr Hs Hm HN. rewrite (norel_closed_form c m) by (try assumption; lia).
-  rewrite Hs. reflexivity.
+  intros c m Hl Hr Hs Hm HN. cbv zeta. rewrite (norel_closed_form_doc c m) by (try assumption; lia).
+  rewrite Hs. unfold year_of. destruct (m <? 8)%nat; reflexivity.
 Qed.
 Print Assumptions c08_outdoor_closed_form.
+
+(* the year-1 ratio is the documented function of the annual year-1 ratio and the share harvested before May;
+   that share is the January-April seasonality, except for four countries where it is fixed *)
+Theorem c08_year1_ratio : forall r1 seas o,
+  let hbm := match o with Some v => v | None => qsum (firstn 4 seas) end in
+  year1_ratio r1 seas o ==
+    (if Qle_bool r1 hbm then 0 else if Qlt_bool (1 - hbm) (1 # 4) then 1 else (r1 - hbm) / (1 - hbm)) /\
+  (List.length seas = 12%nat -> o = None -> hbm == nthq seas 0 + nthq seas 1 + nthq seas 2 + nthq seas 3) /\
+  0 <= year1_ratio r1 seas o /\
+  (0 <= hbm -> hbm <= 1 -> r1 <= 1 -> year1_ratio r1 seas o <= 1) /\
+  (0 <= hbm -> hbm < r1 -> 1 # 4 <= 1 - hbm ->
+     (r1 <= 1 -> year1_ratio r1 seas o <= r1) /\ (1 <= r1 -> r1 <= year1_ratio r1 seas o)).
+Proof.
+  intros r1 seas o. cbv zeta. fold (harvest_before_may seas o).
+  split; [exact (year1_ratio_doc r1 seas o)|].
+  split; [intros Hl ->; apply harvest_before_may_default; exact Hl|].
+  split; [apply year1_ratio_nonneg|].
+  split.
+  - intros H0 H1 Hr. rewrite year1_ratio_doc. apply year1_doc_range; assumption.
+  - intros H0 Hr Hf. rewrite year1_ratio_doc. apply year1_doc_vs_annual; assumption.
+Qed.
+Print Assumptions c08_year1_ratio.
+
+Theorem c08_year1_special_countries :
+  country_hbm "ZAF" = Some 1 /\ country_hbm "JPN" = Some 0 /\ country_hbm "PRK" = Some 0 /\ country_hbm "KOR" = Some 0 /\
+  country_hbm "ARG" = None /\
+  (forall r1 seas, year1_ratio r1 seas (country_hbm "ZAF") == if Qle_bool r1 1 then 0 else 1) /\
+  (forall r1 seas code, In code ["JPN"; "PRK"; "KOR"]%string ->
+     year1_ratio r1 seas (country_hbm code) == if Qle_bool r1 0 then 0 else r1).
+Proof.
+  repeat split; try reflexivity.
+  - intros. rewrite year1_ratio_doc. apply year1_all_before_may.
+  - intros r1 seas code H. rewrite year1_ratio_doc.
+    assert (E : country_hbm code = Some 0) by (cbn [In] in H; destruct H as [<-|[<-|[<-|[]]]]; reflexivity).
+    rewrite E. apply year1_none_before_may.
+Qed.
+Print Assumptions c08_year1_special_countries.
 
 (* any starting month: the cycle is the January cycle rotated by start - 1 *)
 Theorem c08_calendar_rotation : forall c j, List.length (cseas c) = 12%nat -> (1 <= cstart c <= 12)%nat -> (j < 12)%nat ->
@@ -175,6 +217,20 @@ Proof.
 Qed.
 Print Assumptions c08_built_area.
 
+(* built area never decreases and never exceeds the maximum, with or without seaweed *)
+Theorem c08_built_area_monotone : forall n d nf mf, 0 <= nf ->
+  (forall i j, (i <= j)%nat -> (j < n)%nat ->
+     nthq (seaweed_built_area true n d nf mf) i <= nthq (seaweed_built_area true n d nf mf) j) /\
+  (forall add m, (m < n)%nat -> nthq (seaweed_built_area add n d nf mf) m <= seaweed_max_area mf) /\
+  ((n <= 1000)%nat -> forall i j, (i < n)%nat -> (j < n)%nat ->
+     nthq (seaweed_built_area false n d nf mf) i == nthq (seaweed_built_area false n d nf mf) j).
+Proof.
+  intros n d nf mf Hn. split; [intros; apply built_area_monotone; assumption|].
+  split; [intros; apply built_area_capped; assumption|].
+  intros HN i j Hi Hj. rewrite !built_area_off_nth by assumption. reflexivity.
+Qed.
+Print Assumptions c08_built_area_monotone.
+
 (* ---- seaweed growth factors: one per simulated month, 100 x (1 + daily/100)^30 of that month's daily rate *)
 Theorem c08_growth : forall n daily m, (m < n)%nat -> (m < List.length daily)%nat ->
   nthq (seaweed_growth n daily) m = 100 * Qpower (nthq daily m / 100 + 1) 30.
@@ -191,6 +247,90 @@ Proof.
   intros. split; [apply stored_closed_form|]. split; [reflexivity|]. split; [reflexivity|apply stored_nonneg].
 Qed.
 Print Assumptions c08_stored.
+
+(* ---- fat and protein series *)
+(* outdoor crops: length N; each month = crop fraction x that month's kcals; linear in the fat/protein baseline;
+   non-negative *)
+Theorem c08_outdoor_fat_protein : forall pw : Q -> Q -> Q,
+  (forall x e, 0 <= x -> x <= 1 -> 0 < e -> e <= 1 -> x <= pw x e) ->
+  (forall x e, 0 <= x -> x <= 1 -> 0 < e -> e <= 1 -> pw x e <= 1) ->
+  forall c g nb,
+  List.length (outdoor_nutrient pw c g nb) = cN c /\
+  (forall m, (m < cN c)%nat ->
+     nthq (outdoor_nutrient pw c g nb) m ==
+       (if Qeq_bool (annual_yield c) 0 then 0 else (nb / 1000) / (annual_yield c * 4000000 / 1000000000))
+       * nthq (outdoor_production pw c g) m) /\
+  (forall k m, (m < cN c)%nat -> nthq (outdoor_nutrient pw c g (k * nb)) m == k * nthq (outdoor_nutrient pw c g nb) m) /\
+  (forall m, 0 <= cbase c -> 0 <= nb -> all_nonneg (months_cycle c) -> 0 < eff_exp c /\ eff_exp c <= 1 -> 1 <= carea c ->
+     (m < cN c)%nat -> (gadd g = true -> 42 <= cN c)%nat -> 0 <= total_crop_area g -> 0 <= gmult g -> gmult g <= 1 ->
+     0 <= cwd c /\ cwd c <= 100 -> 0 <= nthq (outdoor_nutrient pw c g nb) m).
+Proof.
+  intros pw H1 H2 c g nb. split; [apply outdoor_nutrient_length|].
+  split; [intros; rewrite outdoor_nutrient_nth by assumption; unfold og_fraction; rewrite Qred_correct; reflexivity|].
+  split; [intros; apply outdoor_nutrient_homogeneous; assumption|].
+  intros. apply (outdoor_nutrient_nonneg pw H1); assumption.
+Qed.
+Print Assumptions c08_outdoor_fat_protein.
+
+Theorem c08_greenhouse_fat_protein : forall pw c g nb rr, (gadd g = true -> 42 <= cN c)%nat ->
+  List.length (greenhouse_nutrient pw c g nb rr) = cN c /\
+  forall m, (m < cN c)%nat ->
+    nthq (greenhouse_nutrient pw c g nb rr) m == rotation_ratio c nb rr * nthq (greenhouse_kcals pw c g) m.
+Proof.
+  intros. split; [apply greenhouse_nutrient_length; assumption|intros; apply greenhouse_nutrient_nth; assumption].
+Qed.
+Print Assumptions c08_greenhouse_fat_protein.
+
+(* SCP: kcals x a positive conversion constant; cellulosic sugar: zeros of the same length *)
+Theorem c08_industrial_fat_protein : forall conv kcals,
+  List.length (scp_nutrient conv kcals) = List.length kcals /\
+  (forall m, (m < List.length kcals)%nat -> nthq (scp_nutrient conv kcals) m = nthq kcals m * conv) /\
+  0 < scp_fat_conversion /\ 0 < scp_protein_conversion /\
+  scp_fat_conversion == 1000000000 / 5350 * (9 # 100) / 1000000 /\
+  scp_protein_conversion == 1000000000 / 5350 * (65 # 100) / 1000000 /\
+  List.length (cs_nutrient kcals) = List.length kcals /\ (forall m, nthq (cs_nutrient kcals) m == 0).
+Proof.
+  intros. split; [apply scp_nutrient_length|]. split; [intros; apply scp_nutrient_nth; assumption|].
+  destruct scp_conversions_positive as [A B]. split; [exact A|]. split; [exact B|].
+  split; [reflexivity|]. split; [vm_compute; reflexivity|]. apply cs_nutrient_zero.
+Qed.
+Print Assumptions c08_industrial_fat_protein.
+
+(* hence SCP fat/protein inherit monotonicity, non-negativity and homogeneity from the kcal series *)
+Theorem c08_scp_fat_protein_homogeneous : forall conv n d s nd f w k m, (n <= 1000)%nat -> (m < n)%nat ->
+  nthq (scp_nutrient conv (scp_series true n d s nd (k * f) w)) m ==
+  k * nthq (scp_nutrient conv (scp_series true n d s nd f w)) m.
+Proof.
+  intros conv n d s nd f w k m Hn Hm.
+  rewrite !scp_nutrient_nth by (rewrite scp_length by exact Hn; exact Hm).
+  rewrite scp_homogeneous by assumption. ring.
+Qed.
+Print Assumptions c08_scp_fat_protein_homogeneous.
+
+Theorem c08_fish_fat_protein : forall n a wd wr pct m, (n <= List.length pct)%nat -> (m < n)%nat ->
+  (forall add, List.length (fish_nutrient_series add n a wd wr pct) = n) /\
+  nthq (fish_nutrient_series true n a wd wr pct) m == a / 1000 / 12 * ((1 - wd / 100) * (1 - wr / 100)) * (nthq pct m / 100) /\
+  (forall add k, nthq (fish_nutrient_series add n (k * a) wd wr pct) m == k * nthq (fish_nutrient_series add n a wd wr pct) m) /\
+  (forall add, 0 <= a -> 0 <= wd -> wd <= 100 -> 0 <= wr -> wr <= 100 -> all_nonneg pct ->
+     0 <= nthq (fish_nutrient_series add n a wd wr pct) m /\ 0 <= nthq (fish_series add n a wd wr pct) m).
+Proof.
+  intros n a wd wr pct m Hl Hm. split; [intro; apply fish_nutrient_length; exact Hl|].
+  split; [apply fish_nutrient_nth; assumption|]. split; [intros; apply fish_nutrient_homogeneous; assumption|].
+  intros. split; [apply fish_nutrient_nonneg|apply fish_nonneg]; assumption.
+Qed.
+Print Assumptions c08_fish_fat_protein.
+
+Theorem c08_demand_fat_protein : forall n d t m, (m < n)%nat ->
+  ((d <= n)%nat -> List.length (demand_nutrient_series n d t) = n) /\
+  nthq (demand_nutrient_series n d t) m == (if (m <? d)%nat then t / 12 / 1000 else 0) /\
+  (forall k, nthq (demand_nutrient_series n d (k * t)) m == k * nthq (demand_nutrient_series n d t) m) /\
+  (0 <= t -> 0 <= nthq (demand_series n d t) m /\ 0 <= nthq (demand_nutrient_series n d t) m).
+Proof.
+  intros n d t m Hm. split; [intro; apply demand_nutrient_length; assumption|].
+  split; [apply demand_nutrient_nth; exact Hm|]. split; [intro; apply demand_nutrient_homogeneous; exact Hm|].
+  intro. apply demand_nonneg; assumption.
+Qed.
+Print Assumptions c08_demand_fat_protein.
 
 (* ---- non-vacuity *)
 Example ex_supported : In 48%nat supported_horizons /\ In 120%nat supported_horizons.
